@@ -34,6 +34,10 @@ type Konst struct {
 type SymStr struct {
 	Key      string
 	HostPath bool
+	// Rooted: the text is the served directory's path followed by something
+	// (made by filepath.Join(root, ...) or met by a Walk below such a path):
+	// filepath.Rel(root, it) cannot fail and yields no host path.
+	Rooted bool
 }
 
 // SymInt: an opaque integer with a declared finite domain; concretised on
